@@ -42,6 +42,8 @@ type Case struct {
 	// does not exist at the location it designates, while a file of that relative name exists next to
 	// the root: only the designated location may be tried
 	MissingTarget string `json:"missing_target,omitempty"`
+	// QueryRefs: how many relative references of the layout carry a query string
+	QueryRefs int `json:"query_refs,omitempty"`
 	// Hosts (entry "multi-host"): two documents with the same path at locations that differ in one URL
 	// component; each one's relative references belong to its own location
 	Hosts *Hosts `json:"hosts,omitempty"`
@@ -264,6 +266,11 @@ func check(c Case) (o h.Outcome) {
 			fs.Files[k] = []byte(v)
 		}
 		rootBytes = fs.Files[c.Root]
+		if c.QueryRefs > 0 {
+			for k, v := range c.Layout.Files {
+				fs.Files[k+"?v=2"] = []byte(v) // the same file, asked for with the query its reference carries
+			}
+		}
 		if c.MissingTarget != "" {
 			fs.Decoy = nil // the gap is a gap: a location that has no file answers "does not exist"
 		}
@@ -422,6 +429,9 @@ func check(c Case) (o h.Outcome) {
 		if perr == nil {
 			key = memfs.Key(pu)
 		}
+		if c.QueryRefs > 0 {
+			key = strings.TrimSuffix(key, "?v=2")
+		}
 		if !allowed[key] {
 			o.Fail("read-outside-closure", "with external references allowed the loader read %q, which no reference of an already-read document designates; closure=%v log=%v err=%v", u, jv.Keys(allowed), fs.Log, err)
 			return
@@ -431,6 +441,9 @@ func check(c Case) (o h.Outcome) {
 		}
 	}
 	o.NonTrivial = second && len(allowed) >= 3
+	if c.QueryRefs > 0 {
+		o.Class("on:references-with-a-query")
+	}
 	if err != nil && c.MissingTarget == "" {
 		o.Fail("valid-layout-rejected", "a valid layout fails to load with external references allowed: %v", err)
 	}
@@ -576,6 +589,31 @@ func enumerate(shard, nshards int, yield func(Case)) {
 
 // plantMissingTarget renames the file part of one relative fragment reference found in a reachable
 // document outside the root's directory, and puts a file of the new relative name next to the root.
+// plantQueryRefs gives some relative references a query string (other.json?v=2#/...): the file they
+// designate is still the one next to the referring document, asked for with or without that query
+func plantQueryRefs(t *rapid.T, c *Case) {
+	lay := c.Layout
+	for _, s := range fsgen.AllRefs(lay.Files) {
+		i := strings.Index(s.Ref, "#")
+		file, frag := s.Ref, ""
+		if i >= 0 {
+			file, frag = s.Ref[:i], s.Ref[i:]
+		}
+		if file == "" || strings.HasPrefix(file, "/") || strings.Contains(file, "://") || strings.Contains(file, "?") || strings.Contains(file, "nowhere-") {
+			continue
+		}
+		if rapid.IntRange(0, 2).Draw(t, "queryref") != 0 {
+			continue
+		}
+		var v any
+		_ = json.Unmarshal([]byte(lay.Files[s.File]), &v)
+		v = setAt(v, append(append([]string{}, s.Ptr...), "$ref"), file+"?v=2"+frag)
+		b, _ := json.Marshal(v)
+		lay.Files[s.File] = string(b)
+		c.QueryRefs++
+	}
+}
+
 func plantMissingTarget(t *rapid.T, c *Case) {
 	lay := c.Layout
 	reach := map[string]bool{lay.Root: true}
@@ -640,6 +678,9 @@ func gen(t *rapid.T) Case {
 		c := Case{Layout: lay, Root: lay.Root, Entry: rapid.SampledFrom([]string{"datawithpath", "uri", "file"}).Draw(t, "entry"), Allow: true}
 		if rapid.IntRange(0, 3).Draw(t, "missingtarget") == 0 {
 			plantMissingTarget(t, &c)
+		}
+		if c.MissingTarget == "" && rapid.IntRange(0, 2).Draw(t, "queryrefs") == 0 {
+			plantQueryRefs(t, &c)
 		}
 		return c
 	}
